@@ -76,6 +76,9 @@ type caseT struct {
 	Nodes   int        `json:"nodes"`
 	History []step     `json:"history"`
 	Crash   crashPoint `json:"crash"`
+	// Burst: all messages in flight to one replica are handed over back to back, its ready loop being the slow one (a
+	// snapshot and the appends behind it then reach the state machine in one Ready)
+	Burst bool `json:"burst,omitempty"`
 }
 
 var alphabet = []partlib.Op{
@@ -88,6 +91,9 @@ var alphabet = []partlib.Op{
 
 func (c caseT) String() string {
 	s := fmt.Sprintf("N=%d [", c.Nodes)
+	if c.Burst {
+		s = fmt.Sprintf("N=%d (messages in bursts) [", c.Nodes)
+	}
 	for _, st := range c.History {
 		if st.Snapshot {
 			s += "snapshot; "
@@ -111,9 +117,22 @@ func (c caseT) String() string {
 	return s
 }
 
+var burst bool
+
 func drain(w *sim.World) {
 	for i := 0; i < 500 && len(w.Net) > 0; i++ {
-		w.Deliver(w.SortedNet()[0], false)
+		net := w.SortedNet()
+		if !burst {
+			w.Deliver(net[0], false)
+			continue
+		}
+		var ms []*sim.Msg
+		for _, m := range net {
+			if m.To == net[0].To {
+				ms = append(ms, m)
+			}
+		}
+		w.DeliverBurst(ms)
 	}
 }
 
@@ -129,6 +148,8 @@ func leader(w *sim.World) uint64 {
 // runCase executes one case; returns the number of durable writes the crash target performed
 // while the history ran, and a violation.
 func runCase(c caseT) (durable int, key, desc string) {
+	burst = c.Burst
+	defer func() { burst = false }()
 	w := sim.NewWorld(c.Nodes, func(n *sim.Node) sim.App { return &partApp{partlib.NewReplica()} })
 	defer w.Close()
 	for i := 1; i <= c.Nodes; i++ {
@@ -363,7 +384,14 @@ func main() {
 					}
 					report(base, k, desc)
 					var cps []crashPoint
-					for j := 1; j <= d && !replicasOnly; j++ {
+					for j := 1; j <= d; j++ {
+						if replicasOnly {
+							// only what makes a follower lag behind (it is caught up by a snapshot later)
+							if t == 2 {
+								cps = append(cps, crashPoint{Node: t, Count: j})
+							}
+							continue
+						}
 						cps = append(cps, crashPoint{Node: t, Count: j}, crashPoint{Node: t, Count: j, After: true}, crashPoint{Node: t, Count: j, Fail: true})
 					}
 					cps = append(cps, crashPoint{Node: t, AtEnd: true})
@@ -372,6 +400,13 @@ func main() {
 						_, k, desc := runCase(c)
 						res.Cases++
 						report(c, k, desc)
+						if nodes == 3 && (cp.AtEnd || t == 2 && !cp.After && !cp.Fail) {
+							// the restarted replica catches up; once more with its messages arriving in bursts
+							c.Burst = true
+							_, k, desc := runCase(c)
+							res.Cases++
+							report(c, k, desc)
+						}
 					}
 				}
 			}
